@@ -131,6 +131,7 @@ OfMsgs(ms, acc) ==
   ELSE LET m == Head(ms) IN
        IF m[1] = "N" THEN OfMsgs(Tail(ms), Append(acc, m[2]))
        ELSE IF m[1] = "C" THEN S(acc, "C", U)
+       ELSE IF m[1] = "X" THEN S(acc, "", U)        \* the subject itself was unsubscribed: silence
        ELSE S(acc, "E", m[2])
 
 (* the notification sequence a stream value denotes *)
@@ -221,9 +222,78 @@ ArgFirst == {"with_latest_from", "skip_until"}
 
 Tag(port, msgs) == [i \in 1..Len(msgs) |-> <<port, msgs[i][1], msgs[i][2]>>]
 
-RECURSIVE Ref(_, _, _), InTL(_, _, _, _)
-(* documented output of AST x after its hot inputs received timeline tl *)
-Ref(x, tl, var) ==
+(* ----------------------------------------------------------------------- *)
+(* Flattening (merge_all(n) / concat_all / flatten / flat_map / concat_map)*)
+(* documented semantics: at most n inner observables are subscribed, the   *)
+(* others wait in arrival order; a completing inner hands its slot to the  *)
+(* oldest waiting one; the output completes when the outer stream and all  *)
+(* inner streams have completed; the first error ends everything.          *)
+(*   z = [out, done, act : Seq([id, ast, start]), q : Seq(ast), oc, nid]   *)
+(* ----------------------------------------------------------------------- *)
+FlatZ0 == [out |-> <<>>, done |-> FALSE, act |-> <<>>, q |-> <<>>, oc |-> FALSE, nid |-> 0]
+FlatInner(x, v) == PL(x)[(W(v) % Len(PL(x))) + 1]
+RECURSIVE DropId(_, _)
+DropId(act, id) == IF act = <<>> THEN <<>>
+                   ELSE IF Head(act).id = id THEN Tail(act) ELSE <<Head(act)>> \o DropId(Tail(act), id)
+RECURSIVE HasId(_, _)
+HasId(act, id) == IF act = <<>> THEN FALSE ELSE Head(act).id = id \/ HasId(Tail(act), id)
+
+RECURSIVE HasEnd(_)
+HasEnd(ms) == IF ms = <<>> THEN FALSE ELSE Head(ms)[1] # "N" \/ HasEnd(Tail(ms))
+
+RECURSIVE Ref(_, _, _, _, _), InTL(_, _, _, _, _, _), FlatEv(_, _, _, _, _, _), FlatEvs(_, _, _, _, _, _),
+          FlatStart(_, _, _, _, _, _), FlatPos(_, _, _, _, _, _, _), FlatInners(_, _, _, _, _, _, _)
+
+(* one notification ev = <<src, t, v>> (src 0 = outer stream, else the id of an inner subscription) at position k *)
+FlatEv(x, z, ev, k, g, var) ==
+  LET src == ev[1] t == ev[2] v == ev[3] IN
+  IF z.done THEN z
+  ELSE IF src = 0 THEN
+    IF t = "N" THEN
+      IF Len(z.act) < PA(x) THEN FlatStart(x, z, FlatInner(x, v), k, g, var)
+      ELSE [z EXCEPT !.q = Append(@, FlatInner(x, v))]
+    ELSE IF t = "E" THEN Finish(z, "E", v)
+    ELSE IF z.act = <<>> /\ z.q = <<>> THEN Finish([z EXCEPT !.oc = TRUE], "C", U)
+    ELSE [z EXCEPT !.oc = TRUE]
+  ELSE IF ~HasId(z.act, src) THEN z
+  ELSE IF t = "N" THEN Emit(z, v)
+  ELSE IF t = "E" THEN Finish(z, "E", v)
+  ELSE LET z1 == [z EXCEPT !.act = DropId(@, src)] IN
+       IF z1.q # <<>> THEN FlatStart(x, [z1 EXCEPT !.q = Tail(@)], Head(z1.q), k, g, var)
+       ELSE IF z1.oc /\ z1.act = <<>> THEN Finish(z1, "C", U)
+       ELSE z1
+
+FlatEvs(x, z, evs, k, g, var) ==
+  IF evs = <<>> THEN z ELSE FlatEvs(x, FlatEv(x, z, Head(evs), k, g, var), Tail(evs), k, g, var)
+
+(* subscribe inner observable `ast` at position k: what it delivers at once is processed at once *)
+FlatStart(x, z, ast, k, g, var) ==
+  LET id == z.nid + 1
+      z1 == [z EXCEPT !.nid = id, !.act = Append(@, [id |-> id, ast |-> ast, start |-> k])]
+  IN FlatEvs(x, z1, Tag(id, MsgsOf(Ref(ast, g, k, k, var))), k, g, var)
+
+(* new notifications at position k of the inner subscriptions that existed when the position began *)
+FlatInners(x, z, snap, g, k, var, dummy) ==
+  IF snap = <<>> THEN z
+  ELSE LET a == Head(snap)
+           cur == MsgsOf(Ref(a.ast, g, a.start, k, var))
+           old == MsgsOf(Ref(a.ast, g, a.start, k - 1, var))
+           new == SubSeq(cur, Len(old) + 1, Len(cur))
+       IN FlatInners(x, FlatEvs(x, z, Tag(a.id, new), k, g, var), Tail(snap), g, k, var, dummy)
+
+(* positions lo .. hi of the global timeline g; the flattening was subscribed after position lo *)
+FlatPos(x, z, g, lo, k, hi, var) ==
+  IF k > hi THEN z
+  ELSE LET cur == MsgsOf(Ref(S1(x), g, lo, k, var))
+           old == IF k = lo THEN <<>> ELSE MsgsOf(Ref(S1(x), g, lo, k - 1, var))
+           z1 == FlatEvs(x, z, Tag(0, SubSeq(cur, Len(old) + 1, Len(cur))), k, g, var)
+           z2 == IF k = lo THEN z1 ELSE FlatInners(x, z1, z.act, g, k, var, 0)
+       IN FlatPos(x, z2, g, lo, k + 1, hi, var)
+
+(* documented output of AST x, subscribed after position lo of the global timeline g  *)
+(* (the notifications <<input, t, v>> sent into the hot inputs since the behaviour      *)
+(* began), when the timeline has reached position hi                                    *)
+Ref(x, g, lo, hi, var) ==
   LET o == Op(x) IN
   CASE o = "of" -> S(<<PV(x)>>, "C", U)
     [] o = "of_option" -> S(IF IsSome(PV(x)) THEN <<Unwrap(PV(x))>> ELSE <<>>, "C", U)
@@ -235,22 +305,26 @@ Ref(x, tl, var) ==
     [] o = "never" -> S(<<>>, "", U)
     [] o = "throw" -> S(<<>>, "E", PV(x))
     [] o = "create" -> OfMsgs(PL(x), <<>>)
-    [] o = "subject" \/ o = "hotc" -> OfMsgs(Sel(tl, PA(x)), <<>>)
-    [] o \in RefUnaryOps -> RefUnary(x, Ref(S1(x), tl, var))
+    [] o = "subject" ->
+         (* a subject that has terminated (or was unsubscribed) delivers nothing, not even to a new subscriber *)
+         IF HasEnd(Sel(SubSeq(g, 1, lo), PA(x))) THEN S(<<>>, "", U)
+         ELSE OfMsgs(Sel(SubSeq(g, lo + 1, hi), PA(x)), <<>>)
+    [] o = "hotc" -> OfMsgs(Sel(SubSeq(g, lo + 1, hi), PA(x) + 100), <<>>)
+    [] o \in RefUnaryOps -> RefUnary(x, Ref(S1(x), g, lo, hi, var))
     [] o \in TwoOps ->
-         LET z == TwoFold(o, T0, InTL(x, tl, 0, var), var) IN OfMsgs(z.out, <<>>)
+         LET z == TwoFold(o, T0, InTL(x, g, lo, lo, hi, var), var) IN OfMsgs(z.out, <<>>)
+    [] o = "flat" -> OfMsgs(FlatPos(x, FlatZ0, g, lo, lo, hi, var).out, <<>>)
     [] OTHER -> S(<<>>, "", U)
 
 (* what the two inputs of x deliver, in order: at every timeline position k the NEW   *)
 (* notifications of each input (its documented output is prefix-monotone), the input  *)
 (* subscribed first delivering first                                                  *)
-InTL(x, tl, k, var) ==
-  IF k > Len(tl) THEN <<>>
-  ELSE LET pre == SubSeq(tl, 1, k)
-           new(y) == LET cur == MsgsOf(Ref(y, pre, var))
-                         old == IF k = 0 THEN <<>> ELSE MsgsOf(Ref(y, SubSeq(tl, 1, k - 1), var)) IN
+InTL(x, g, lo, k, hi, var) ==
+  IF k > hi THEN <<>>
+  ELSE LET new(y) == LET cur == MsgsOf(Ref(y, g, lo, k, var))
+                         old == IF k = lo THEN <<>> ELSE MsgsOf(Ref(y, g, lo, k - 1, var)) IN
                      SubSeq(cur, Len(old) + 1, Len(cur))
            a == Tag(1, new(S1(x)))
            b == Tag(2, new(S2(x)))
-       IN (IF Op(x) \in ArgFirst THEN b \o a ELSE a \o b) \o InTL(x, tl, k + 1, var)
+       IN (IF Op(x) \in ArgFirst THEN b \o a ELSE a \o b) \o InTL(x, g, lo, k + 1, hi, var)
 =============================================================================
